@@ -229,6 +229,8 @@ mod search;
 #[cfg(feature = "sync")]
 mod sync;
 mod util;
+#[cfg(ldap3_verif)]
+pub mod verif;
 
 pub use conn::{LdapConnAsync, LdapConnSettings, StdStream};
 pub use filter::parse as parse_filter;
